@@ -182,6 +182,54 @@ def d3(run: Run, prog: Program):
                 "selected by exactly these masks)")
 
 
+def d6(run: Run, prog: Program):
+    """A window setter that remembers its last argument for an "already
+    selected" short-cut must remember a *copy*: the window is a mutable dict the
+    caller keeps (and typically updates in place for a sliding window); stored
+    by reference, the remembered window changes with the caller's dict, the
+    comparison is always true and the view never follows."""
+    n = 0
+    for cname in ("Data", "ClimateData"):
+        C = prog.classes.get(cname)
+        if C is None:
+            continue
+        for f in sorted(C.methods.values(), key=lambda f: f.name):
+            if not f.params or "window" not in f.name:
+                continue
+            sn = f.params[0]
+            params = set(f.params[1:])
+            # cells compared with a parameter in a guard that returns early
+            memo = set()
+            for st in ast.walk(f.node):
+                if isinstance(st, ast.If) and any(isinstance(x, ast.Return) for x in st.body):
+                    for c in ast.walk(st.test):
+                        if isinstance(c, ast.Compare) and len(c.ops) == 1 and \
+                                isinstance(c.ops[0], (ast.Eq, ast.Is)):
+                            for a, b in ((c.left, c.comparators[0]),
+                                         (c.comparators[0], c.left)):
+                                if isinstance(a, ast.Name) and a.id in params and \
+                                        isinstance(b, ast.Attribute) and \
+                                        isinstance(b.value, ast.Name) and b.value.id == sn:
+                                    memo.add((b.attr, a.id))
+            for (cell, p_) in sorted(memo):
+                n += 1
+                byref = [a for a in ast.walk(f.node) if isinstance(a, ast.Assign)
+                         and any(isinstance(t, ast.Attribute) and t.attr == cell
+                                 and isinstance(t.value, ast.Name) and t.value.id == sn
+                                 for t in a.targets)
+                         and isinstance(a.value, ast.Name) and a.value.id == p_]
+                run.oblige("D6", f"{f.qualname}:{cell}", not byref)
+                for a in byref:
+                    run.add("D6", f"{f.qualname}/memo-by-reference/{cell}",
+                            f"{f.module.relpath}:{a.lineno}",
+                            f"{f.qualname} skips its work when `{p_} == self.{cell}` and "
+                            f"stores `self.{cell} = {p_}` by reference: after the caller "
+                            f"updates its dict in place the comparison is always true, so "
+                            f"the window is never applied and observable / grid stay on "
+                            f"the old window")
+    run.count("D6", n)
+
+
 def d5(run: Run, prog: Program):
     """phase_mean() and anomaly() are siblings: anomalies add back to the
     observable with the phase means only if both select the samples of a phase
@@ -251,6 +299,7 @@ def _rename(node, old, new):
 
 
 def check(run: Run, prog: Program):
+    run.rule("D6", "a remembered last window is a copy, not the caller's dict")
     run.rule("D5", "phase_mean() and anomaly() select the samples of a phase with the "
              "same selector")
     run.rule("D1", "only the constructor and set_window read the unwindowed data")
@@ -267,6 +316,7 @@ def check(run: Run, prog: Program):
     d2(run, prog)
     d3(run, prog)
     d5(run, prog)
+    d6(run, prog)
     from .rules_c06 import p1_restricted
     p1_restricted(run, "D4", prog,
                   lambda o: "ClimateData." in o and o.startswith(("cached:", "shared:")),
